@@ -183,57 +183,8 @@ func LoadSpecLib(dir string) (*SpecLib, error) {
 				sl.LibDeps[lib] = append(sl.LibDeps[lib], strings.Fields(strings.TrimPrefix(line, ";; requires:"))...)
 			}
 		}
-		xs, err := parseSexps(text)
-		if err != nil {
-			return nil, fmt.Errorf("%s: %v", fn, err)
-		}
-		for _, x := range xs {
-			if !x.isL || len(x.list) == 0 {
-				continue
-			}
-			switch x.list[0].atom {
-			case "define-fun", "define-fun-rec":
-				if len(x.list) < 5 {
-					return nil, fmt.Errorf("%s: bad define-fun", fn)
-				}
-				sym := &SpecSym{Name: strings.Trim(x.list[1].atom, "|"), Lib: lib}
-				for _, p := range x.list[2].list {
-					s, err := sortFromSexp(p.list[1])
-					if err != nil {
-						return nil, fmt.Errorf("%s: %s: %v", fn, sym.Name, err)
-					}
-					sym.Args = append(sym.Args, s)
-				}
-				r, err := sortFromSexp(x.list[3])
-				if err != nil {
-					return nil, fmt.Errorf("%s: %s: %v", fn, sym.Name, err)
-				}
-				sym.Res = r
-				sl.Syms[sym.Name] = sym
-			case "declare-fun":
-				sym := &SpecSym{Name: strings.Trim(x.list[1].atom, "|"), Lib: lib}
-				for _, p := range x.list[2].list {
-					s, err := sortFromSexp(p)
-					if err != nil {
-						return nil, fmt.Errorf("%s: %s: %v", fn, sym.Name, err)
-					}
-					sym.Args = append(sym.Args, s)
-				}
-				r, err := sortFromSexp(x.list[3])
-				if err != nil {
-					return nil, err
-				}
-				sym.Res = r
-				sl.Syms[sym.Name] = sym
-			case "declare-const":
-				r, err := sortFromSexp(x.list[2])
-				if err != nil {
-					return nil, err
-				}
-				sl.Syms[strings.Trim(x.list[1].atom, "|")] = &SpecSym{Name: strings.Trim(x.list[1].atom, "|"), Res: r, Lib: lib}
-			case "assert":
-				sl.Axioms[lib]++
-			}
+		if err := sl.addSyms(lib, text, fn); err != nil {
+			return nil, err
 		}
 	}
 	// effects table
@@ -371,4 +322,67 @@ func (sl *SpecLib) Prelude(uses map[string]bool) string {
 		b.WriteString("\n")
 	}
 	return b.String()
+}
+
+
+func (sl *SpecLib) addSyms(lib, text, fn string) error {
+		xs, err := parseSexps(text)
+		if err != nil {
+			return fmt.Errorf("%s: %v", fn, err)
+		}
+		for _, x := range xs {
+			if !x.isL || len(x.list) == 0 {
+				continue
+			}
+			switch x.list[0].atom {
+			case "define-fun", "define-fun-rec":
+				if len(x.list) < 5 {
+					return fmt.Errorf("%s: bad define-fun", fn)
+				}
+				sym := &SpecSym{Name: strings.Trim(x.list[1].atom, "|"), Lib: lib}
+				for _, p := range x.list[2].list {
+					s, err := sortFromSexp(p.list[1])
+					if err != nil {
+						return fmt.Errorf("%s: %s: %v", fn, sym.Name, err)
+					}
+					sym.Args = append(sym.Args, s)
+				}
+				r, err := sortFromSexp(x.list[3])
+				if err != nil {
+					return fmt.Errorf("%s: %s: %v", fn, sym.Name, err)
+				}
+				sym.Res = r
+				sl.Syms[sym.Name] = sym
+			case "declare-fun":
+				sym := &SpecSym{Name: strings.Trim(x.list[1].atom, "|"), Lib: lib}
+				for _, p := range x.list[2].list {
+					s, err := sortFromSexp(p)
+					if err != nil {
+						return fmt.Errorf("%s: %s: %v", fn, sym.Name, err)
+					}
+					sym.Args = append(sym.Args, s)
+				}
+				r, err := sortFromSexp(x.list[3])
+				if err != nil {
+					return err
+				}
+				sym.Res = r
+				sl.Syms[sym.Name] = sym
+			case "declare-const":
+				r, err := sortFromSexp(x.list[2])
+				if err != nil {
+					return err
+				}
+				sl.Syms[strings.Trim(x.list[1].atom, "|")] = &SpecSym{Name: strings.Trim(x.list[1].atom, "|"), Res: r, Lib: lib}
+			case "assert":
+				sl.Axioms[lib]++
+			}
+		}
+	return nil
+}
+
+// AddLib registers a generated library (e.g. a token-rule automaton).
+func (sl *SpecLib) AddLib(lib, text string) error {
+	sl.LibText[lib] = text
+	return sl.addSyms(lib, text, lib)
 }
